@@ -210,6 +210,13 @@ def write_json(content, dial):
             pick.features.add("json:bundle_prefix_block")
             if default_ns is not None and pick(2):
                 body["prefix"]["default"] = default_ns
+            # a second, redundant prefix for one of the bundle's own namespaces that SHADOWS a document-level prefix
+            # (legitimate: the bundle does not use that document namespace); sibling bundles must not be affected
+            used_here = set(_namespaces({"doc": recs, "bundles": []})) | {split_uri(u)[0]}
+            cands = [ns for ns in prefixes if ns not in used_here and ns not in own and use.get(ns)]
+            if cands and pick(2):
+                body["prefix"][prefixes[cands[0]]] = sorted(own)[0]
+                pick.features.add("json:bundle_alias_shadows_doc_prefix")
         bl[name(u)] = body
     pfx = {p: ns for ns, p in prefixes.items() if ns not in moved}
     if default_ns is not None:
